@@ -30,7 +30,8 @@ Record rfield := {
   rf_ann : ann;
   rf_kafka : option meta;          (* field.metadata.get("kafka_type") *)
   rf_tag : option meta;            (* field.metadata.get("tag") *)
-  rf_default : option value        (* None = dataclasses.MISSING *)
+  rf_default : option value;       (* None = dataclasses.MISSING *)
+  rf_default_cls : option nat      (* index of type(default) when the default is an entity *)
 }.
 
 Record dc_params := {
